@@ -9,7 +9,7 @@ from sa.astx import call_name, dotted, src, walk_local
 from sa.effects import accesses, class_accesses
 from sa.selftest import Mutant, Silent
 from sa.source import methods
-from sa.props._lib_b import (check_equality_is_identity, equality_locator_sites, MiniBudget, MiniEval, MiniRaise, Unsupported, check_delayed_call, intra_class_calls, public_api_effects, lin_cmp, lin_cmp_text, lin_eq, linform,
+from sa.props._lib_b import (Normaliser, check_equality_is_identity, equality_locator_sites, MiniBudget, MiniEval, MiniRaise, Unsupported, check_delayed_call, intra_class_calls, public_api_effects, lin_cmp, lin_cmp_text, lin_eq, linform,
                               model_class, resolve_locals, swallowing_predicate, lin_text)
 
 PROPERTY = "C08"
@@ -60,6 +60,9 @@ def _self_attr(node, name):
 
 def _is_call(x, name):
     return isinstance(x, ast.Call) and (dotted(x.func) or "").split(".")[-1] == name
+
+
+NORM = None
 
 
 def _heap_aliases(f):
@@ -258,7 +261,10 @@ def _check_resetter(ctx, mod, cls, Elem, name):
 
 # =============================================================================== callLater
 def _check_call_later(ctx, mod, cls, sift):
-    f = ctx.func(BASE, "ReactorBase.callLater")
+    f0 = ctx.func(BASE, "ReactorBase.callLater")
+    f, understood, vnotes = NORM.view(f0)
+    for n_ in vnotes:
+        ctx.note("callLater: " + n_)
     q = R + ".callLater"
     g = ctx.cfg(f)
     ctors = [c for c in ast.walk(f) if _is_call(c, "DelayedCall")]
@@ -302,6 +308,8 @@ def _check_call_later(ctx, mod, cls, sift):
     apps = g.find(lambda x: isinstance(x, ast.Call) and isinstance(x.func, ast.Attribute) and x.func.attr == "append" and _self_attr(x.func.value, NEW)
                   and len(x.args) == 1 and ((local and src(x.args[0]) == local) or x.args[0] is c))
     wit = g.must_pass(g.ids_of(c), apps, exc=False)
+    if not apps and not understood:
+        ctx.need(False, "the append to the staging list in callLater (a private helper it calls could not be read as inlined)")
     ctx.check(bool(apps) and wit is None, "callLater/staged", q, "the new call is not appended to the staging list on every path: it never runs",
               witness=g.describe(wit))
     rets = [s for s in ast.walk(f) if isinstance(s, ast.Return)]
@@ -323,8 +331,53 @@ def _dec_sites(g):
     return g.ids(lambda n: n.kind == "stmt" and isinstance(n.ast, ast.AugAssign) and _self_attr(n.ast.target, CANC))
 
 
+def _insert_model(ctx, cls, f, q):
+    """Bounded twin of the insert/* rules: _insertNewDelayedCalls evaluated on model reactors."""
+    dcls = ctx.cls(BASE, "DelayedCall")
+    Elem = model_class(dcls, "DelayedCallModel")
+    Reactor = model_class(cls, "ReactorModel")
+    bad = None
+    n = 0
+    try:
+        for old_times in ([], [1], [1, 3, 2]):
+            for news in ([], [(5, 0, 0)], [(0, 0, 1)], [(2, 0, 0), (0, 0, 1), (4, 1.5, 0), (1, 0, 1), (0, 0, 0)]):
+                heap = [Elem(time=t, delayed_time=0.0, cancelled=0, called=0) for t in old_times]
+                staged = [Elem(time=t, delayed_time=float(d), cancelled=cn, called=0) for t, d, cn in news]
+                ncanc = sum(1 for e in staged if e.cancelled)
+                r = Reactor(**{HEAP: heap, NEW: list(staged), CANC: ncanc + 2})
+                keep = list(heap)
+                MiniEval.budget = 0
+                MiniEval.call(f, (r,), {})
+                n += 1
+                h = getattr(r, HEAP)
+                want = sorted(map(id, keep + [e for e in staged if not e.cancelled]))
+                if sorted(map(id, h)) != want:
+                    bad = f"staged calls (time, delay, cancelled) {news}: the heap afterwards holds {len(h)} calls instead of {len(want)}"
+                elif not all(not (h[i].time < h[(i - 1) // 2].time) for i in range(1, len(h))):
+                    bad = f"staged calls {news}: the heap property is broken afterwards"
+                elif len(getattr(r, NEW)) != 0:
+                    bad = f"staged calls {news}: the staging list is not empty afterwards (the calls are inserted again next time)"
+                elif getattr(r, CANC) != 2:
+                    bad = f"staged calls {news}: _cancellations changed by {getattr(r, CANC) - ncanc - 2} instead of -{ncanc}"
+                if bad:
+                    break
+            if bad:
+                break
+    except MiniBudget:
+        bad = "does not terminate on a model reactor"
+    except MiniRaise as e:
+        bad = f"raises {e}"
+    except (AttributeError, TypeError, NameError, ValueError, IndexError) as e:
+        raise Unsupported(f"{q}: model evaluation failed ({type(e).__name__}: {e})")
+    ctx.check(bad is None, "model/insert-moves-live-calls", q,
+              f"_insertNewDelayedCalls does not move exactly the uncancelled staged calls into the heap: {bad}", detail=f"{n} model reactors")
+
+
 def _check_insert(ctx, mod, cls):
-    f = ctx.func(BASE, "ReactorBase._insertNewDelayedCalls")
+    f0 = ctx.func(BASE, "ReactorBase._insertNewDelayedCalls")
+    f, understood, vnotes = NORM.view(f0)
+    for n_ in vnotes:
+        ctx.note("_insertNewDelayedCalls: " + n_)
     q = R + "._insertNewDelayedCalls"
     g = ctx.cfg(f)
     loops = g.ids(lambda n: n.kind == "for")
@@ -347,8 +400,10 @@ def _check_insert(ctx, mod, cls):
             heads.append(l)
         elif isinstance(it, ast.Subscript) and _self_attr(it.value, NEW) and isinstance(it.slice, ast.Slice) and not (it.slice.lower or it.slice.upper or it.slice.step):
             heads.append(l)
+    _insert_model(ctx, cls, f0, q)
     if not heads and (loops or g.find(lambda x: _is_call(x, "heappush"))):
-        ctx.need(False, "a loop over self._newTimedCalls in _insertNewDelayedCalls (shape not recognised)")
+        ctx.note("insert/*: loop over the staging list not recognised (e.g. a filtered copy is iterated), clauses left to model/insert-moves-live-calls")
+        return
     ctx.check(len(heads) == 1, "insert/drains-staging-list", q, "no single loop over every call of the staging list")
     if len(heads) != 1:
         return
@@ -416,12 +471,17 @@ def _check_insert(ctx, mod, cls):
 
 # =============================================================================== runUntilCurrent
 def _check_run(ctx, mod, cls, Elem):
-    f = ctx.func(BASE, "ReactorBase.runUntilCurrent")
+    f0 = ctx.func(BASE, "ReactorBase.runUntilCurrent")
+    f, understood, vnotes = NORM.view(f0)
+    for n_ in vnotes:
+        ctx.note("runUntilCurrent: " + n_)
     q = R + ".runUntilCurrent"
     g = ctx.cfg(f, swallowing=swallowing_predicate(mod, f))
     al = _heap_aliases(f)
     _alias_guard(g, al)
     pops = g.find(lambda x: _is_call(x, "heappop") and x.args and _is_heap(x.args[0], al))
+    if not pops and not understood:
+        ctx.need(False, "the heappop of runUntilCurrent (a private helper it calls could not be read as inlined)")
     ctx.check(len(pops) == 1, "run/pops-head", q, f"{len(pops)} heappop sites on the timer heap (exactly one expected)")
     if len(pops) != 1:
         return
@@ -547,15 +607,31 @@ def _check_run(ctx, mod, cls, Elem):
         for a in acc:
             c = ctx.construct(q, a.node)
             nodes = g.ids_of(a.node)
-            wit = g.path(nodes, [g.exit] + pops + loop_tests, avoid=heapifies, strict=True, edge_ok=lambda x, y, l: l != "exc")
-            ctx.check(bool(heapifies) and wit is None, "heap/compaction", c,
+            hs = list(heapifies)
+            if isinstance(a.node.value, ast.Name):
+                nm = a.node.value.id
+                hs += g.find(lambda x: (_is_call(x, "heapify") and x.args and isinstance(x.args[0], ast.Name) and x.args[0].id == nm) or (
+                    isinstance(x, ast.Call) and isinstance(x.func, ast.Attribute) and x.func.attr == "sort" and isinstance(x.func.value, ast.Name)
+                    and x.func.value.id == nm and not x.args and not x.keywords))
+            wit = g.path(nodes, [g.exit] + pops + loop_tests, avoid=hs, strict=True, edge_ok=lambda x, y, l: l != "exc")
+            ctx.check(bool(hs) and wit is None, "heap/compaction", c,
                       "the filtered list is not heapified before it is used as a heap again: calls run out of time order", witness=g.describe(wit))
             live = [Elem(time=t, delayed_time=0.0, cancelled=cn) for t, cn in ((1, 0), (2, 1), (3, 1), (4, 0), (5, 1), (6, 0))]
             r = Reactor(**{HEAP: list(live), CANC: 3})
             bad = None
             try:
                 MiniEval.budget = 0
-                got = MiniEval({"self": r}, {}).expr(a.node.value)
+                if isinstance(a.node.value, ast.Name):
+                    # the filtered list is built by the statements before the re-bind: evaluate that block on the model reactor
+                    blk = next((b for x in ast.walk(f) for fld in ("body", "orelse", "finalbody") for b in [getattr(x, fld, None)]
+                                if isinstance(b, list) and a.node in b), None)
+                    if blk is None:
+                        raise Unsupported("compaction: enclosing block not found")
+                    ev = MiniEval({"self": r}, {"heapify": heapq.heapify, "heappush": heapq.heappush, "heappop": heapq.heappop})
+                    ev.body(blk[: blk.index(a.node) + 1])
+                    got = getattr(r, HEAP)
+                else:
+                    got = MiniEval({"self": r}, {}).expr(a.node.value)
                 if sorted(map(id, got)) != sorted(id(e) for e in live if not e.cancelled):
                     bad = f"from calls with cancelled flags {[e.cancelled for e in live]} it keeps those with flags {[e.cancelled for e in got]}"
             except (MiniRaise, MiniBudget, TypeError, AttributeError, ValueError) as e:
@@ -639,7 +715,10 @@ def _timeout_clamp_form(ctx, f, q, al):
 
 # =============================================================================== timeout / getDelayedCalls
 def _check_timeout(ctx, mod, cls, Elem):
-    f = ctx.func(BASE, "ReactorBase.timeout")
+    f0 = ctx.func(BASE, "ReactorBase.timeout")
+    f, understood, vnotes = NORM.view(f0)
+    for n_ in vnotes:
+        ctx.note("timeout: " + n_)
     q = R + ".timeout"
     g = ctx.cfg(f)
     inames = _inserters(cls)
@@ -801,8 +880,11 @@ def _check_public_api(ctx, mod, cls, canc, rst):
 
 
 def check(ctx):
+    global NORM
     mod = ctx.mod(BASE)
     cls = ctx.cls(BASE, "ReactorBase")
+    NORM = Normaliser(mod, cls, keep=_inserters(cls) | {"_cancelCallLater", "_moveCallLaterSooner"})
+    MiniEval.GLOBALS = {"heappush": heapq.heappush, "heappop": heapq.heappop, "heapify": heapq.heapify, "ValueError": ValueError}
     Elem = check_delayed_call(ctx, mod, heap_rules=True)
     ms = methods(cls)
     acc, sift = [], set()
@@ -1018,4 +1100,41 @@ MUTANTS += [
 SILENT += [
     Silent("delayed-call-identity-equality-spelled-out", BASE, _DC_LT,
            "    def __eq__(self, other: object) -> bool:\n        return self is other\n\n    __hash__ = object.__hash__\n\n" + _DC_LT),
+]
+
+_RUN_LOOP = ('        while self._pendingTimedCalls and (self._pendingTimedCalls[0].time <= now):\n            call = heappop(self._pendingTimedCalls)\n'
+             '            if call.cancelled:\n                self._cancellations -= 1\n                continue\n\n' + _DELAYED_BRANCH)
+_SELECTOR = ('    def _nextDue(self, now):\n        while self._pendingTimedCalls and (self._pendingTimedCalls[0].time <= now):\n            picked = heappop(self._pendingTimedCalls)\n'
+             '            if picked.cancelled:\n                self._cancellations -= 1\n                continue\n            if picked.delayed_time > 0.0:\n'
+             '                picked.activate_delay()\n                heappush(self._pendingTimedCalls, picked)\n                continue\n            return picked\n        return None\n\n')
+_CANCEL_DEF = "    def _cancelCallLater(self, delayedCall: DelayedCall) -> None:"
+_COMPACT = ('        if (\n            self._cancellations > 50\n            and self._cancellations > len(self._pendingTimedCalls) >> 1\n        ):\n            self._cancellations = 0\n'
+            '            self._pendingTimedCalls = [\n                x for x in self._pendingTimedCalls if not x.cancelled\n            ]\n            heapify(self._pendingTimedCalls)\n')
+SILENT += [
+    # selection of the next due call in a private helper that returns it (or None), consumed through a walrus loop
+    Silent("selector-helper-with-walrus-loop", BASE, _RUN_LOOP, "        while (call := self._nextDue(now)) is not None:\n",
+           more=[(BASE, _CANCEL_DEF, _SELECTOR + _CANCEL_DEF)]),
+    # compaction in a private helper, the new list built by an append loop and heapified through its local name
+    Silent("compaction-helper-with-append-loop", BASE, _COMPACT, "        self._dropCancelled()\n",
+           more=[(BASE, _CANCEL_DEF, "    def _dropCancelled(self):\n        if 50 < self._cancellations and len(self._pendingTimedCalls) // 2 < self._cancellations:\n"
+                  "            self._cancellations = 0\n            alive = []\n            for c in self._pendingTimedCalls:\n                if not c.cancelled:\n"
+                  "                    alive.append(c)\n            self._pendingTimedCalls = alive\n            heapify(alive)\n\n" + _CANCEL_DEF)]),
+    # staged calls partitioned by a comprehension, the cancellation count adjusted once
+    Silent("insert-partition-by-comprehension", BASE, "        if not self._newTimedCalls:\n            return\n\n" + _INSERT_LOOP,
+           "        if not self._newTimedCalls:\n            return\n\n        staged = self._newTimedCalls\n        alive = [c for c in staged if not c.cancelled]\n"
+           "        self._cancellations -= len(staged) - len(alive)\n        for c in alive:\n            c.activate_delay()\n            heappush(self._pendingTimedCalls, c)\n"
+           "        self._newTimedCalls = []\n"),
+    Silent("get-delayed-calls-chain", BASE, "for x in (self._pendingTimedCalls + self._newTimedCalls)", "for x in chain(self._pendingTimedCalls, self._newTimedCalls)",
+           more=[(BASE, "from heapq import heapify, heappop, heappush\n", "from heapq import heapify, heappop, heappush\nfrom itertools import chain\n")]),
+]
+MUTANTS += [
+    # the same violations must be seen THROUGH the helpers
+    Mutant("selector-helper-strict-boundary", BASE, _RUN_LOOP, "        while (call := self._nextDue(now)) is not None:\n", expect_rule="run/loop-boundary",
+           more=[(BASE, _CANCEL_DEF, _SELECTOR.replace("[0].time <= now", "[0].time < now") + _CANCEL_DEF)]),
+    Mutant("selector-helper-ignores-delay", BASE, _RUN_LOOP, "        while (call := self._nextDue(now)) is not None:\n", expect_rule="run/not-before-scheduled-time",
+           more=[(BASE, _CANCEL_DEF, _SELECTOR.replace("            if picked.delayed_time > 0.0:\n                picked.activate_delay()\n                heappush(self._pendingTimedCalls, picked)\n                continue\n", "") + _CANCEL_DEF)]),
+    Mutant("insert-partition-keeps-cancelled", BASE, "        if not self._newTimedCalls:\n            return\n\n" + _INSERT_LOOP,
+           "        if not self._newTimedCalls:\n            return\n\n        staged = self._newTimedCalls\n        alive = [c for c in staged if c.cancelled]\n"
+           "        self._cancellations -= len(staged) - len(alive)\n        for c in alive:\n            c.activate_delay()\n            heappush(self._pendingTimedCalls, c)\n"
+           "        self._newTimedCalls = []\n", expect_rule="model/insert-moves-live-calls"),
 ]
